@@ -22,7 +22,7 @@ RULE = (
 )
 ASSUMPTIONS = ["clDice: scikit-image skeleton trusted; judged only when both skeletons are non-empty", "ASSD compared with relative 1e-9"]
 MINIMUM = {"C13.values_judged": 3000, "C13.empty_side_judged": 300, "C13.repartition_judged": 500}
-BUDGET_S = {"quick": 600, "thorough": 900}
+BUDGET_S = {"quick": 1200, "thorough": 900}
 
 GM = ["DSC", "IOU", "ASSD", "RVD", "clDSC"]
 SUBSETS = [list(c) for k in range(1, 6) for c in itertools.combinations(GM, k)]
